@@ -472,6 +472,7 @@ func runC16(c *Cfg) {
 	r := c.Rep
 	runSpecial(c, "C16", "bind-cyclic-values")
 	runSpecial(c, "C16", "bind-store-aware-hooks")
+	runSpecial(c, "C16", "bind-same-named-types")
 	runC16Stateful(c)
 	vals := append(bindValues(), zoo.Fixed()...)
 	dests := bindDests()
